@@ -19,6 +19,15 @@ func c10body(class, n int) []byte {
 		copy(b, "RIFF\x24\x08\x00\x00WAVEfmt ")
 	case 2: // ID3 tag -> audio/mpeg
 		copy(b, "ID3\x03\x00\x00\x00\x00\x00\x21")
+	case 3: // compressible head (text), incompressible tail (pseudo-random bytes)
+		for i := range b {
+			b[i] = "the quick brown fox "[i%20]
+		}
+		x := uint32(12345)
+		for i := 10240; i < n; i++ {
+			x = x*1664525 + 1013904223
+			b[i] = byte(x >> 24)
+		}
 	}
 	return b
 }
@@ -28,14 +37,17 @@ func c10body(class, n int) []byte {
 // bytes: in the write buffer, after flush, and after a restart that rebuilds the indexes
 // from the data files.
 func VH_C10_U1_invisible() {
-	s := newScen(32768, false, "ka")
-	config.MCConf.BodyMax = 16384
-	class := vrt.Choice("class", 3)
+	s := newScen(262144, false, "ka")
+	config.MCConf.BodyMax = 65536
+	class := vrt.Choice("class", 4)
 	// sizes around the 256-byte record boundary (24 + 2 + n), and a multi-block body whose
 	// last two bytes (beyond the sniffed prefix) are symbolic
 	vrt.QlzBoth() // explore both outcomes of every compression attempt
 	sizes := []int{229, 230, 231, 600, 10300}
 	n := sizes[vrt.Choice("size", len(sizes))]
+	if class == 3 {
+		n = 51200 // mixed content only makes sense above the 10 KB probe size
+	}
 	body := c10body(class, n)
 	if n > 512 {
 		t := vrt.Bytes("tail", 2)
@@ -55,7 +67,7 @@ func VH_C10_U1_invisible() {
 	vrt.Assert("file-well-formed", ok && len(recs) == 1)
 	if ok && len(recs) == 1 {
 		stored := recs[0].flag&FLAG_COMPRESS != 0
-		mayCompress := vrt.All(flag&FLAG_CLIENT_COMPRESS == 0, class == 0, 24+2+n > 256)
+		mayCompress := vrt.All(flag&FLAG_CLIENT_COMPRESS == 0, class == 0 || class == 3, 24+2+n > 256)
 		vrt.Assert("compressed-only-when-allowed", vrt.Implies(stored, mayCompress))
 		vrt.Assert("client-flag-bits-preserved-on-disk", recs[0].flag&^FLAG_COMPRESS == flag)
 	}
